@@ -124,6 +124,22 @@ Theorem C07_remove_order_irrelevant :
 Proof. exact remove_order_irrelevant. Qed.
 Print Assumptions C07_remove_order_irrelevant.
 
+(* ... and over whole histories: attach to EVERY Remove of a history an arbitrary iteration
+   order of Go's map (any duplicate-free list with the members of the successor set).  The
+   invariant holds, the final node set and every Predecessors answer are those of the model's
+   own order, and every output along the way (danglings, query answers) is the same up to the
+   order inside the set.  (The history-level form of C07_remove_order_irrelevant.) *)
+Theorem C07_history_any_map_order :
+  forall (ct : amap) (fuel : nat) (ops : list (op * list node)),
+    let r1 := run_orders ct fuel init_state ops in
+    let r2 := run ct fuel init_state (map fst ops) in
+    Inv (ctab ct) (s_g (fst r1)) /\
+    (forall x, In x (g_nodes (s_g (fst r1))) <-> In x (g_nodes (s_g (fst r2)))) /\
+    (forall n, Permutation (predecessors (s_g (fst r1)) n) (predecessors (s_g (fst r2)) n)) /\
+    Forall2 out_equiv (snd r1) (snd r2).
+Proof. exact history_any_map_order. Qed.
+Print Assumptions C07_history_any_map_order.
+
 (* loadIndex (reopen from a directory, an fs.FS, a tar archive) and gcIndex build a
    fresh graph by IndexAll over a root list.  The result holds exactly the nodes
    reachable from the roots through nodes whose Successors succeed, and its
@@ -575,6 +591,17 @@ Definition ex_ct : amap := [(2, [0;1;1]); (3, [2]); (4, [2;1])]%N.
 Definition ex_ops : list op :=
   [OSok 0 true; OSok 1 true; OSok 2 true; OSok 3 true; OSok 4 true;
    OIndex 3; OIndex 4; OIndex 2; OIndex 1; OIndex 0; ORemove 3; OQuery 2; OQuery 1]%N.
+
+(* an order other than the model's is really taken: the danglings come out reversed *)
+Example C07_map_order_example :
+  snd (run_orders ex_ct 100 init_state
+         [(OSok 0 true, []); (OSok 1 true, []); (OSok 2 true, []);
+          (OIndex 0, []); (OIndex 1, []); (OIndex 2, []); (ORemove 2, [0; 1])]%N) =
+    [RNone; RNone; RNone; ROk; ROk; ROk; RDang [0; 1]%N] /\
+  snd (run ex_ct 100 init_state
+         [OSok 0 true; OSok 1 true; OSok 2 true; OIndex 0; OIndex 1; OIndex 2; ORemove 2]%N) =
+    [RNone; RNone; RNone; ROk; ROk; ROk; RDang [1; 0]%N].
+Proof. vm_compute. split; reflexivity. Qed.
 
 Example C07_example_history :
   snd (run ex_ct 100 init_state ex_ops) =
